@@ -1,4 +1,4 @@
-package checks
+package u
 
 import (
 	"context"
@@ -26,7 +26,7 @@ import (
 	"oss.terrastruct.com/d2/lib/log"
 )
 
-var bgctx = log.WithDefault(context.Background())
+var Bgctx = log.WithDefault(context.Background())
 
 // ---- compile helpers ---------------------------------------------------------------------------
 
@@ -41,27 +41,27 @@ func (f Files) FS() fs.FS {
 	return m
 }
 
-func compile(src string) (*d2graph.Graph, *d2target.Config, error) {
+func Compile(src string) (*d2graph.Graph, *d2target.Config, error) {
 	return d2compiler.Compile("index.d2", strings.NewReader(src), &d2compiler.CompileOptions{FS: fstest.MapFS{}})
 }
 
-func compileFS(path, src string, files Files) (*d2graph.Graph, *d2target.Config, error) {
+func CompileFS(path, src string, files Files) (*d2graph.Graph, *d2target.Config, error) {
 	return d2compiler.Compile(path, strings.NewReader(src), &d2compiler.CompileOptions{FS: files.FS()})
 }
 
-func parse(src string) (*d2ast.Map, error) {
+func Parse(src string) (*d2ast.Map, error) {
 	return d2parser.Parse("index.d2", strings.NewReader(src), nil)
 }
 
-func format(src string) (string, error) {
-	m, err := parse(src)
+func Format(src string) (string, error) {
+	m, err := Parse(src)
 	if err != nil {
 		return "", err
 	}
 	return d2format.Format(m), nil
 }
 
-func errClass(err error) string {
+func ErrClass(err error) string {
 	if err == nil {
 		return "ok"
 	}
@@ -69,14 +69,14 @@ func errClass(err error) string {
 	if errors.As(err, &pe) {
 		var ms []string
 		for _, e := range pe.Errors {
-			ms = append(ms, stripDigits(e.Message))
+			ms = append(ms, StripDigits(e.Message))
 		}
 		return "E:" + strings.Join(ms, "|")
 	}
-	return "err:" + stripDigits(err.Error())
+	return "err:" + StripDigits(err.Error())
 }
 
-func stripDigits(s string) string {
+func StripDigits(s string) string {
 	// error messages begin with path:line:col: ; drop positions
 	if i := strings.Index(s, ": "); i >= 0 && strings.Contains(s[:i], ":") {
 		s = s[i+2:]
@@ -122,7 +122,7 @@ type canonBoard struct {
 	Boards     []*canonBoard   `json:"boards,omitempty"`
 }
 
-func attrsJSON(a *d2graph.Attributes) (json.RawMessage, string) {
+func AttrsJSON(a *d2graph.Attributes) (json.RawMessage, string) {
 	if a == nil {
 		return nil, ""
 	}
@@ -145,9 +145,9 @@ type CanonOpts struct {
 	LowerIDs    bool
 }
 
-func canonBoardOf(g *d2graph.Graph, kind string, o CanonOpts) *canonBoard {
+func CanonBoardOf(g *d2graph.Graph, kind string, o CanonOpts) *canonBoard {
 	cb := &canonBoard{Name: g.Name, Kind: kind, FolderOnly: g.IsFolderOnly}
-	cb.RootAttrs, _ = attrsJSON(&g.Root.Attributes)
+	cb.RootAttrs, _ = AttrsJSON(&g.Root.Attributes)
 	id := func(s string) string {
 		if o.LowerIDs {
 			return strings.ToLower(s)
@@ -162,7 +162,7 @@ func canonBoardOf(g *d2graph.Graph, kind string, o CanonOpts) *canonBoard {
 		for _, ch := range ob.ChildrenArray {
 			co.Children = append(co.Children, id(ch.ID))
 		}
-		co.Attrs, co.Near = attrsJSON(&ob.Attributes)
+		co.Attrs, co.Near = AttrsJSON(&ob.Attributes)
 		if ob.Class != nil {
 			co.Class, _ = json.Marshal(ob.Class)
 		}
@@ -179,9 +179,9 @@ func canonBoardOf(g *d2graph.Graph, kind string, o CanonOpts) *canonBoard {
 		if e.Dst != nil {
 			ce.Dst = id(e.Dst.AbsID())
 		}
-		ce.Attrs, _ = attrsJSON(&e.Attributes)
-		ce.SrcHead, _ = attrsJSON(e.SrcArrowhead)
-		ce.DstHead, _ = attrsJSON(e.DstArrowhead)
+		ce.Attrs, _ = AttrsJSON(&e.Attributes)
+		ce.SrcHead, _ = AttrsJSON(e.SrcArrowhead)
+		ce.DstHead, _ = AttrsJSON(e.DstArrowhead)
 		cb.Edges = append(cb.Edges, ce)
 	}
 	if o.SortObjects {
@@ -192,11 +192,11 @@ func canonBoardOf(g *d2graph.Graph, kind string, o CanonOpts) *canonBoard {
 		lg := map[string]any{"label": g.Legend.Label}
 		var os_, es []string
 		for _, ob := range g.Legend.Objects {
-			a, _ := attrsJSON(&ob.Attributes)
+			a, _ := AttrsJSON(&ob.Attributes)
 			os_ = append(os_, ob.ID+":"+string(a))
 		}
 		for _, e := range g.Legend.Edges {
-			a, _ := attrsJSON(&e.Attributes)
+			a, _ := AttrsJSON(&e.Attributes)
 			es = append(es, fmt.Sprint(e.SrcArrow, e.DstArrow)+":"+string(a))
 		}
 		lg["objects"], lg["edges"] = os_, es
@@ -206,38 +206,38 @@ func canonBoardOf(g *d2graph.Graph, kind string, o CanonOpts) *canonBoard {
 		cb.Data, _ = json.Marshal(g.Data)
 	}
 	for _, l := range g.Layers {
-		cb.Boards = append(cb.Boards, canonBoardOf(l, "layer", o))
+		cb.Boards = append(cb.Boards, CanonBoardOf(l, "layer", o))
 	}
 	for _, l := range g.Scenarios {
-		cb.Boards = append(cb.Boards, canonBoardOf(l, "scenario", o))
+		cb.Boards = append(cb.Boards, CanonBoardOf(l, "scenario", o))
 	}
 	for _, l := range g.Steps {
-		cb.Boards = append(cb.Boards, canonBoardOf(l, "step", o))
+		cb.Boards = append(cb.Boards, CanonBoardOf(l, "step", o))
 	}
 	return cb
 }
 
 // canon is the canonical projection of a compiled graph (all boards) plus config.
-func canon(g *d2graph.Graph, cfg *d2target.Config) string {
-	return canonWith(g, cfg, CanonOpts{})
+func Canon(g *d2graph.Graph, cfg *d2target.Config) string {
+	return CanonWith(g, cfg, CanonOpts{})
 }
 
-func canonWith(g *d2graph.Graph, cfg *d2target.Config, o CanonOpts) string {
-	cb := canonBoardOf(g, "root", o)
+func CanonWith(g *d2graph.Graph, cfg *d2target.Config, o CanonOpts) string {
+	cb := CanonBoardOf(g, "root", o)
 	b, _ := json.Marshal(map[string]any{"board": cb, "config": cfg})
 	return string(b)
 }
 
 // canonRoot projects only the root board (no nested boards).
-func canonRoot(g *d2graph.Graph) string {
-	cb := canonBoardOf(g, "root", CanonOpts{})
+func CanonRoot(g *d2graph.Graph) string {
+	cb := CanonBoardOf(g, "root", CanonOpts{})
 	cb.Boards = nil
 	b, _ := json.Marshal(cb)
 	return string(b)
 }
 
 // firstDiff gives a short description of where two canonical strings differ.
-func firstDiff(a, b string) string {
+func FirstDiff(a, b string) string {
 	n := len(a)
 	if len(b) < n {
 		n = len(b)
@@ -261,7 +261,7 @@ func firstDiff(a, b string) string {
 }
 
 // jsonDiffPaths returns the JSON paths at which two JSON documents differ (bounded).
-func jsonDiffPaths(a, b string) []string {
+func JSONDiffPaths(a, b string) []string {
 	var va, vb any
 	json.Unmarshal([]byte(a), &va)
 	json.Unmarshal([]byte(b), &vb)
@@ -326,7 +326,7 @@ func jsonDiffPaths(a, b string) []string {
 // ---- enumeration ---------------------------------------------------------------------------------
 
 // seqs calls visit for every sequence over alpha of exactly length k (lexicographic in alphabet order).
-func seqs(alpha []string, k int, visit func(seq []string)) {
+func Seqs(alpha []string, k int, visit func(seq []string)) {
 	idx := make([]int, k)
 	cur := make([]string, k)
 	if k == 0 {
@@ -355,7 +355,7 @@ func seqs(alpha []string, k int, visit func(seq []string)) {
 	}
 }
 
-func pow(a, b int) int64 {
+func Pow(a, b int) int64 {
 	r := int64(1)
 	for i := 0; i < b; i++ {
 		r *= int64(a)
@@ -369,7 +369,7 @@ var corpusCache []string
 
 // corpus returns every .d2 file under /repo plus every string literal of every *_test.go that contains a
 // newline or looks like D2 (deduplicated, deterministic order).
-func corpus() []string {
+func Corpus() []string {
 	if corpusCache != nil {
 		return corpusCache
 	}
